@@ -1,0 +1,13 @@
+//go:build verif
+
+package publicip
+
+// VerifSetIPCheckers replaces the provider list and returns a restore function.
+func VerifSetIPCheckers(urls []string) (restore func()) {
+	old := ipCheckers
+	ipCheckers = urls
+	return func() { ipCheckers = old }
+}
+
+// VerifIPCheckerCallTimeoutNs exposes the per-provider timeout.
+const VerifIPCheckerCallTimeoutNs = int64(ipCheckerCallTimeout)
